@@ -46,6 +46,8 @@ two equivalent forms the rules get to see, so soundness never depends on the ref
   S29 (a1, a2) < (b1, b2) ->  a1 < b1 or (a1 == b1 and a2 < b2)      lexicographic comparison of tuple displays (also <=, >, >=), not in the reference
   S30 if T: return   REST (to the end of the function)  ->  if not T: REST      a guard clause at function level with a bare return, when the reference
                                                       function tests `not T` (and falls off its end)
+  S34 return all(P for x in X)  ->  for x in X: if not P: return False   return True      (likewise any): a short-circuit quantifier returned
+                                                      directly, not a statement of the reference function
   S12 a = ..; b = ..      ->  b = ..; a = ..          adjacent call-free assignments without data dependence are put in the
                                                       order the reference function has them in
 
@@ -343,6 +345,27 @@ class _Canon(ast.NodeTransformer):
                 out.extend(r)
             elif r is not None:
                 out.append(r)
+        # S34 `return all/any(<generator>)` -> the explicit short-circuit loop
+        q_ = []
+        for st in out:
+            v = st.value if isinstance(st, ast.Return) else None
+            if isinstance(v, ast.Call) and isinstance(v.func, ast.Name) and v.func.id in ('all', 'any') and len(v.args) == 1 and not v.keywords \
+                    and isinstance(v.args[0], (ast.GeneratorExp, ast.ListComp)) and len(v.args[0].generators) == 1 \
+                    and not v.args[0].generators[0].ifs and U(st) not in self.stmt_set:
+                g = v.args[0].generators[0]
+                is_all = v.func.id == 'all'
+                test = ast.UnaryOp(op=ast.Not(), operand=v.args[0].elt) if is_all else v.args[0].elt
+                inner = ast.If(test=test, body=[ast.Return(value=ast.Constant(value=not is_all))], orelse=[])
+                loop = ast.For(target=g.target, iter=g.iter, body=[inner], orelse=[])
+                tail = ast.Return(value=ast.Constant(value=is_all))
+                _relocate(loop, st)
+                _relocate(tail, st)
+                self.steps.append('S34 ' + U(st)[:60])
+                q_.append(self.visit(loop))
+                q_.append(tail)
+                continue
+            q_.append(st)
+        out = q_
         # S15 / S16 comprehension and conditional-expression statements the reference does not have
         exp = []
         for st in out:
